@@ -341,13 +341,17 @@ def kani_playback_values(scr, h):
 
 # --------------------------------------------------------------------------- native replay
 
-def native_test(scr, rust_source, test_name, release=False, timeout=900, features=None):
+def native_test(scr, rust_source, test_name, release=False, timeout=900, features=None, checked=False):
     """compile `rust_source` as the crate-internal module `verif_replay` (cfg(test)) and run one test.
     returns (outcome, output): outcome in {'pass','fail','error'}"""
     open(os.path.join(scr.replay_dir, 'mod.rs'), 'w').write(rust_source)
     env = dict(ENV)
     env['RUSTFLAGS'] = '--cap-lints allow'
-    cmd = ['cargo', 'test', '--offline', '--lib', '--target-dir', scr.target_dir('native')]
+    tdir = 'native'
+    if checked:      # optimised build that keeps debug assertions and overflow checks (fast enough for directed searches, panics like a dev build)
+        env['RUSTFLAGS'] += ' -C debug-assertions=on -C overflow-checks=on'
+        tdir = 'native-chk'
+    cmd = ['cargo', 'test', '--offline', '--lib', '--target-dir', scr.target_dir(tdir)]
     if release:
         cmd.append('--release')
     cmd += ['--', '--exact', 'verif_replay::' + test_name, '--nocapture', '--test-threads', '1']
